@@ -255,6 +255,14 @@ fn slice_case<E: Payload>(len: usize, mode: u8) -> Result<(), String> {
             if Gc::as_ptr(fat) as *const () as usize != addr || fat.len() != len || thin.len() != len {
                 return Err(format!("as_thin/as_fat: addr {:#x} len {} (thin len {}) vs addr {addr:#x} len {len}", Gc::as_ptr(fat) as *const () as usize, fat.len(), thin.len()));
             }
+            // the thin reference denotes memory inside the value (for an empty slice: no memory at all)
+            {
+                let r = Gc::as_thin_ref(thin);
+                let (ra, rs) = (r as *const _ as *const () as usize, std::mem::size_of_val(r));
+                if ra != addr || ra + rs > addr + std::mem::size_of::<E>() * len {
+                    return Err(format!("as_thin_ref denotes {rs} byte(s) at {ra:#x}, outside the value ({} byte(s) at {addr:#x})", std::mem::size_of::<E>() * len));
+                }
+            }
             let tp = Gc::as_thin_ptr(thin);
             let thin2 = unsafe { gc_arena::GcThinSlice::<E>::from_thin_ptr_with_kind(tp) };
             if tp as usize != addr || thin2.len() != len || Gc::as_ptr(thin2) as *const () as usize != addr {
@@ -313,6 +321,13 @@ fn swh_case<H: Payload, E: Payload>(len: usize, mode: u8) -> Result<(), String> 
             let fat = Gc::as_fat(thin);
             if thin.slice.len() != len || fat.slice.len() != len || Gc::as_ptr(fat) as *const () as usize != addr || Gc::as_thin_ptr(thin) as usize != addr {
                 return Err("as_thin/as_fat lost address or length".into());
+            }
+            {
+                let r = Gc::as_thin_ref(thin);
+                let (ra, rs) = (r as *const _ as *const () as usize, std::mem::size_of_val(r));
+                if ra != addr || ra + rs > addr + size {
+                    return Err(format!("as_thin_ref denotes {rs} byte(s) at {ra:#x}, outside the value ({size} byte(s) at {addr:#x})"));
+                }
             }
             let thin2 = unsafe { gc_arena::GcThinSliceWithHeader::<H, E>::from_thin_ptr_with_kind(Gc::as_thin_ptr(thin)) };
             if thin2.slice.len() != len {
